@@ -298,6 +298,17 @@ def one_schema(ctx, sut, idx, case):
         # (verdicts under `format` legitimately depend on the registration history of the process)
         ctx.digest(idx, outcomes)
     ctx.sample({"schema": pristine, "values": values[:3], "route": route}, every=40)
+    if idx % 4 == 1:
+        # multi-step use: the element is serialized, the caller edits the returned document (everywhere), the
+        # element is used again - it is still the element parsed from the schema
+        try:
+            sut.scribble_json(sut.serialize_json(element))
+        except Exception:  # pylint: disable=broad-except
+            ctx.count("diagnostic.serialize_failed_before_second_use")
+        else:
+            ctx.count("second_use.after_returned_document_was_edited")
+            for value in values:
+                judge(ctx, sut, element, pristine, pristine, copy.deepcopy(value), route, tag + "+serialized")
     # order-of-parse effects: a second parse of an equal document must agree
     if idx % 5 == 0:
         try:
